@@ -404,13 +404,13 @@ def main():
     import andes.main as MN
     ck.encodes(PF.PFlow.nr_solve, PF.PFlow.run, TD.TDS.test_init, TD.TDS.run, EG.EIG._pre_check, EG.EIG.run, SY.System.setup, MN.run)
     thorough = core.tier() == 'thorough'
-    ck.bound(newton='max_iter in {0, 1, 2}' + (', 3' if thorough else ''), residual_vector='n <= 3', cases='<= 2 per invocation')
+    ck.bound(newton='max_iter in {0, 1, 2}' + (', 3' if thorough else ''), residual_vector='n <= 4' if thorough else 'n <= 3', cases='<= 2 per invocation')
     ck.stub('nr_step -> arbitrary non-negative mismatch per iteration', 'np.isnan(...).any() -> free boolean', 'init/summary/report -> no-ops',
             'run_case / multiprocessing helpers -> outcome tables', 'logging and result tables -> no-ops (cut by AST)')
     ck.assume('NaN is modelled by the free boolean of the isnan test (Newton loops) and by an absorbing not-a-number object with IEEE comparison semantics at fixed positions (test_init)')
     ck.out('NaN propagation inside numpy/C', 'unparsable input files (file I/O)', 'step-level facts: see C04/C06; solver singular path: C16')
-    jobs = [('nr', k) for k in ((0, 1, 2, 3) if thorough else (0, 1, 2))] + [('pf', (k, 2)) for k in (0, 1, 2)] + [('pf', (1, 0))]
-    jobs += [('keep', 0), ('pf2', 1)] + [('ti', n) for n in (1, 2, 3)] + [('tinan', p) for p in ((1,), (1, 0), (0, 1), (0, 1, 0), (1, 1))] + [('refuse', 'TDS'), ('refuse', 'EIG'), ('setup', 0)]
+    jobs = [('nr', k) for k in ((0, 1, 2, 3) if thorough else (0, 1, 2))] + [('pf', (k, 2)) for k in ((0, 1, 2, 3) if thorough else (0, 1, 2))] + [('pf', (1, 0))]
+    jobs += [('keep', 0), ('pf2', 1)] + [('ti', n) for n in ((1, 2, 3, 4) if thorough else (1, 2, 3))] + [('tinan', p) for p in ((1,), (1, 0), (0, 1), (0, 1, 0), (1, 1))] + [('refuse', 'TDS'), ('refuse', 'EIG'), ('setup', 0)]
     jobs += [('main', (1, False)), ('main', (2, True)), ('main', (2, False))]
     ck.merge(core.pmap(job, jobs))
     ck.sample({'PFlow.run': 'mismatch sequence mis0, mis1, ... >= 0, tol > 0, nan_seen_k booleans'})
